@@ -18,7 +18,7 @@ RESERVED = ["file", "directory", "playlist", "duration", "Time", "Range", "Forma
 # ------------------------------------------------------------------ abstract listings
 
 URLS = ["a.flac", "m/" + "d" * 4200 + ".flac", "dir/sub/b c.mp3", "http://example.org/stream?x=1: 2", "ä/ö.ogg", "日本語.flac", "x", "file: y", "Artist: z", "OK", "a\tb"]
-VALUES = ["Foo", "", "a: b", ": ", "Ünï©ode", "日本語", "\U0001F600", "  lead", "trail ", "12", "0", "007", "+3", "18446744073709551615",
+VALUES = ["Foo", "", "Intro\r", "\r", "a\rb", "x\r\r", "end\t", " ", "a: b", ": ", "Ünï©ode", "日本語", "\U0001F600", "  lead", "trail ", "12", "0", "007", "+3", "18446744073709551615",
           "18446744073709551616", "x" * 70, "file: z", "OK", "ACK [5@0] {} x", "-1", "3/12", "1/12", "3 / 12", "A/B", "12/", "/12", "v" * 4090, "v" * 4097, "v" * 9000]
 UNKNOWN_TAGS = ["Foo", "foo", "FOO", "x", "a-b_c", "File", "FILE", "time", "TIME", "pos", "ID", "format", "Directory", "last-modified",
                 "Mood", "TitleSort", "Albumx", "Duration", "range", "PRIO"]
